@@ -433,7 +433,11 @@ def check_mapping(program, rep):
                          'cls.__events__')
         return
     v = assigns[0].value if assigns else sets[0].args[2]
-    fresh, leftmost = _fresh_merge(v, borrowed)
+    # the composition may live in a private helper
+    class _M:
+        module = f.module
+    v = evrules.beta_reduce(program, _M, v)
+    fresh, leftmost = _fresh_merge(v, borrowed, cls)
     rep.check(fresh, 'C03.mapping', site, assigns[0] if assigns else sets[0],
               'cls.__events__ is assigned a fresh mapping',
               'cls.__events__ is assigned the borrowed (inherited) mapping '
@@ -447,10 +451,19 @@ def check_mapping(program, rep):
               'lost', line=(assigns or sets)[0].lineno)
 
 
-def _fresh_merge(v, borrowed):
+def _fresh_merge(v, borrowed, cls='cls'):
     """(is a fresh object, inherited mapping is leftmost operand)."""
-    if isinstance(v, ast.Name):
-        return (v.id not in borrowed), False
+    def is_b(n):
+        if isinstance(n, ast.Name):
+            return n.id in borrowed
+        if isinstance(n, ast.Call) and dotted(n.func) == 'getattr' and len(
+                n.args) >= 2 and norm(n.args[0]) == cls and isinstance(
+                    n.args[1], ast.Constant) and n.args[1].value == \
+                '__events__':
+            return True
+        return norm(n) == f'{cls}.__events__'
+    if isinstance(v, ast.Name) or is_b(v):
+        return (not is_b(v)), False
     if isinstance(v, ast.BinOp) and isinstance(v.op, ast.BitOr):
         ops = []
 
@@ -462,15 +475,13 @@ def _fresh_merge(v, borrowed):
                 ops.append(n)
         flat(v)
         first = ops[0]
-        return True, isinstance(first, ast.Name) and first.id in borrowed
+        return True, is_b(first)
     if isinstance(v, ast.Dict):
-        if v.keys and v.keys[0] is None and isinstance(
-                v.values[0], ast.Name) and v.values[0].id in borrowed:
+        if v.keys and v.keys[0] is None and is_b(v.values[0]):
             return True, True
         return True, False
     if isinstance(v, ast.Call) and dotted(v.func) in ('dict', 'ChainMap'):
-        if dotted(v.func) == 'dict' and v.args and isinstance(
-                v.args[0], ast.Name) and v.args[0].id in borrowed:
+        if dotted(v.func) == 'dict' and v.args and is_b(v.args[0]):
             return True, True
         return True, False
     return True, False
